@@ -17,7 +17,7 @@ EXPLANATION = (
     'user callback; R04.g crux-provided futures keep the poll\'s waker; R04.h done / event / notify_shell / request_from_shell / '
     'stream_from_shell make exactly the one context call they stand for, on every path, with their own argument; R04.i every task leaving a command wakes its join handles. '
     'Equivalence to the reference semantics, the algebraic laws and the behaviour of then_request/then_stream under every resolution '
-    'order quantify over expressions x schedules and are NOT decided. R04.j a hosted command returns Pending only after both output queues were found empty and ends only when done (shared with C07 R07.e). R04.n the body of a combinator never drives an operand (is_done, effects, events, settle, poll_next): composing runs nothing. R04.m the closure given to the `new` of a builder only builds the future: no notify_shell, send_event or spawn (which act at the call) in its own body, in crux_core and the capability crates. R04.l each chaining method is built on the adaptor that gives its documented order, judged over its whole family (body, closures, builder functions it calls): a request chained to a request or to a stream goes through a sequential stage (`then`) and no concurrent or flattening adaptor; streams chained to a stream are flattened concurrently (`flatten_unordered`) and never serially.')
+    'order quantify over expressions x schedules and are NOT decided. R04.j a hosted command returns Pending only after both output queues were found empty and ends only when done (shared with C07 R07.e). R04.n the body of a combinator never drives an operand (is_done, effects, events, settle, poll_next): composing runs nothing. R04.m the closure given to the `new` of a builder only builds the future: no notify_shell, send_event or spawn (which act at the call) in its own body, in crux_core and the capability crates. R04.l each chaining method is built on the adaptor that gives its documented order, judged over its whole family (body, closures, builder functions it calls): a request chained to a request or to a stream goes through a sequential stage (`then`) and no concurrent or flattening adaptor; streams chained to a stream are flattened concurrently (`flatten_unordered`) and never serially. R04.o adaptors that keep clones of the task waker are used only where tabled (shared with C07 R07.i): `then` / `all` finishing after a DROPPED request rests on the eviction test.')
 
 HOST = 'crux_core::command::stream::CommandStreamExt::host'
 POLL = 'core::future::future::Future::poll'
